@@ -420,6 +420,8 @@ Definition rfc6298_rto (c:ccfg) (est:option (N*N)) : N :=
   end.
 Definition within_tolerance (observed expected:N) : bool :=
   absdiff observed expected <=? expected / 100000 + fx 1000.
+Definition within_tolerance_scaled (k observed expected:N) : bool :=
+  absdiff observed (k * expected) <=? k * (expected / 100000 + fx 1000).
 Definition mon_C15 (mc:mcfg) (c:ccfg) (core:mstate) (s:rtt_mon) (op:mop) (o:obs) : rtt_mon * bool :=
   if cc_reliable c then (s, true) else
   match op with
@@ -434,8 +436,9 @@ Definition mon_C15 (mc:mcfg) (c:ccfg) (core:mstate) (s:rtt_mon) (op:mop) (o:obs)
           let armed := match find (fun e => h_ident e =? id) (ob_H o) with Some e => snd e | None => r end in
           ({| rm_est := est; rm_last := Some now; rm_poisoned := rm_poisoned s |},
            (* with Rc = 1 there is no retransmission: the only timer is the final wait of Rm * RTO *)
+           (* the armed timer of an Rc = 1 request is Rm times the interval: the property's tolerance on the interval scales with it *)
            rm_poisoned s || (within_tolerance (fx r) (rfc6298_rto c est)
-                             && within_tolerance (fx armed) ((if mc_rc mc =? 1 then mc_rm mc else 1) * rfc6298_rto c est)))
+                             && within_tolerance_scaled (if mc_rc mc =? 1 then mc_rm mc else 1) (fx armed) (rfc6298_rto c est)))
       | _ => (s, true)
       end
   | MRecv now _ _ =>
@@ -544,6 +547,19 @@ Definition mon_C07_reject (c:ccfg) (core:mstate) (s:st_mon) (op:mop) (o:obs) : b
            then existsb (fun e => match e with EFail i ProtectionViolated => i =? m_id m | _ => false end) (ob_events o)
            else (match ob_events o with [] => true | _ => false end) && memN (m_id m) (ob_K o)
       else true
+  | _ => true
+  end.
+
+(* ---- C17, "when the client rejects a received buffer (undecodable bytes, ...)": bytes that are not a STUN message (broken
+   cookie, a length field beyond the buffer or not a multiple of four) ARE rejected, and for them there is no exception: no
+   event, the snapshot unchanged, and the marker set unchanged too (the documented marker is for a MESSAGE that fails
+   authentication). mon_C17 judges every rejection; this clause adds that such a buffer must be one. *)
+Definition mon_C17_undecodable (s:mstate) (op:mop) (o:obs) : bool :=
+  match op with
+  | MRecv _ false _ =>
+      (match ob_ret o with OOk => false | _ => true end)
+      && (match ob_events o with [] => true | _ => false end) && ob_same o
+      && subsetb (ob_K o) (ms_K s) && subsetb (ms_K s) (ob_K o)
   | _ => true
   end.
 
